@@ -6,7 +6,6 @@ import (
 	"errors"
 	"fmt"
 	"io"
-	"log/slog"
 	"net"
 	"sync"
 	"time"
@@ -266,7 +265,7 @@ func classifyQUIC(err error, sessionUp bool) int {
 
 func newQUICFetcher(r *lib.Rng) *ntske.Fetcher {
 	f := &ntske.Fetcher{}
-	f.Log = slog.New(slog.DiscardHandler)
+	f.Log = fetcherLog(r)
 	cfg := tls.Config{MinVersion: tls.VersionTLS13}
 	switch r.Intn(3) {
 	case 0: // as timeservice.go configures it
